@@ -129,6 +129,7 @@ type WF struct {
 	// created and run by the main goroutine while the first one runs in a
 	// goroutine of its own
 	Parallel    bool
+	Ghost       string // a path given to a FileSource although no such file exists
 	RunToNone   bool // RunTo* is called with a target set that selects no process at all
 	FullLogging bool // do not lower the log level: NewWorkflow sets up audit logging to stdout + file
 	// Rounds: further runs of the same workflow inside the SAME process (a driver
